@@ -14,11 +14,11 @@ open Sm
 `k` with the `n0` query hashes (at the comparison resolution) is not below `threshold_bp / scaled`
 passes `Index.find`'s containment threshold `t`.
 
-For `threshold_bp = 0` this is proved (`prefetchPermissive_zero`).  For `threshold_bp > 0` and a query at
-least as coarse as the database (`n0 = len(query)`, `t = (threshold_bp / scaled) / n0`) it is the statement
-that correctly rounded division is monotone in its numerator (`k ≥ x → fl(k / n0) ≥ fl(x / n0)`), which the
-relative-error characterisation of `F64.div` in `Lemmas/Float64Lemmas.lean` does not give; it is an explicit
-hypothesis of the database-level theorems.  For a query finer than the database it is FALSE (finding D6). -/
+For `threshold_bp = 0` this is `prefetchPermissive_zero`; for `threshold_bp > 0` and a query at least as coarse
+as the database (`n0 = len(query)`, `t = (threshold_bp / scaled) / n0`) it is the monotonicity of correctly
+rounded division in its numerator (`k ≥ x → fl(k / n0) ≥ fl(x / n0)`), proved in
+`Lemmas/GatherThreshold.lean` (`prefetchPermissive_calc`) from C06's `IsRN.mono_le`.  For a query finer than
+the database it is FALSE (finding D6). -/
 def PrefetchPermissive (t nT : F64.F) (n0 : Nat) : Prop :=
   ∀ k : Nat, k ≤ n0 → k ≠ 0 → belowThreshold (k : Int) nT = false → passes (scoreContainment n0 k) t = true
 
